@@ -9,6 +9,8 @@ gen, count = sys.argv[1], int(sys.argv[2])
 seed = int(sys.argv[3]) if len(sys.argv) > 3 else 1
 ctx = fw.Ctx('C01', 'quick', seed)
 g = progs.G(ctx.rng)
+g.loop_mut = os.environ.get('LOOP_MUT', '1') == '1'
+g.CALLEE_BUMP_VISIBLE_IN_CALLER = os.environ.get('CALLEE_BUMP_VISIBLE_IN_CALLER', '0') == '1'
 mk = {'expr': lambda: g.expr_program(ctx.rng.randint(1, 5)), 'flow': lambda: g.flow_program(3),
       'copy': lambda: g.copy_program(ctx.rng.randint(3, 12)), 'call': g.call_program, 'inst': g.inst_program, 'exc': g.exc_program,
       'scope': g.scope_program, 'text': lambda: g.text_program(ctx.rng.randint(2, 8)), 'coll': lambda: g.coll_program(ctx.rng.randint(3, 12))}[gen]
